@@ -73,7 +73,9 @@ func (t *Topic) loadContacts(uid types.Uid) error {
 	}
 
 	for i := range subs {
-		t.addToPerSubs(subs[i].Topic, false, (subs[i].ModeGiven & subs[i].ModeWant).IsPresencer())
+		// Notifications from a topic are accepted if the user may hear of its presence and is not banned from it.
+		mode := subs[i].ModeGiven & subs[i].ModeWant
+		t.addToPerSubs(subs[i].Topic, false, mode.IsPresencer() && mode.IsJoiner())
 	}
 	return nil
 }
@@ -712,7 +714,8 @@ func presOfflineFilter(mode types.AccessMode, what string, pf *presFilters) bool
 	if what == "upd" && mode.IsJoiner() {
 		return true
 	}
-	return mode.IsPresencer() &&
+	// A banned user (no 'J') gets none of the topic's news other than the changes to the subscription itself.
+	return mode.IsJoiner() && mode.IsPresencer() &&
 		(pf == nil ||
 			((pf.filterIn == types.ModeNone || mode&pf.filterIn != 0) &&
 				(pf.filterOut == types.ModeNone || mode&pf.filterOut == 0)))
